@@ -16,7 +16,7 @@ from checks import xref_common as C
 
 PROPERTY = "C14"
 LEVEL = "exploration"
-RULE = ("every body of <= 2 (thorough <= 3) items over a 119-item reference alphabet + 110 extended single items (all 28 field "
+RULE = ("every body of <= 2 (thorough <= 3) items over a 129-item reference alphabet + 110 extended single items (all 28 field "
         "opcodes), each generated program analysed with both add orders of its two DEX files; every field access of the shipped "
         "DEX files.  Non-trivial = the body contains at least one field access; distinct by construction (sequence = index) / by "
         "(file, method, offset)")
